@@ -8,6 +8,7 @@
 //   cli run  --cfg C --seed S --start A --stride W --count N [--twice] [--secs T] [--samples]
 //   cli exec --replay FILE [--log]
 #include <link.h>
+#include <pthread.h>
 #include <cstdio>
 #include <cstdlib>
 #include <cstring>
@@ -153,6 +154,7 @@ struct Sim {
     const SInv *inv = nullptr;
     vector<FileState> fs;
     vector<string> names;       // the operands of this invocation, by file index
+    char *tool_buf = nullptr; size_t tool_buf_size = 0; bool tool_buf_heap = false;      // a buffer the tool itself gave to stdout / stderr with setvbuf()
     string out, err;            // captured stdout / stderr of the tool
     long long out_written = 0; bool of_fired = false; long out_calls = 0;
     int in_harness = 0;
@@ -311,6 +313,16 @@ static void mhook(const volatile void *p, size_t n) {
 static void fhook(const volatile void *p) {
     if (!g_led_on || g_hook_busy || !p) return;
     g_hook_busy++; if (g_live->erase((const void *)p)) g_frees++; g_hook_busy--;
+}
+
+// the tool may install its own stdio buffer; that buffer must still exist when the stream is flushed at exit
+extern "C" int __real_setvbuf(FILE *f, char *buf, int mode, size_t size);
+extern "C" int __wrap_setvbuf(FILE *f, char *buf, int mode, size_t size) {
+    if (S && !S->in_harness && f && (f == S->cap_out || f == S->cap_err) && buf) {
+        S->tool_buf = buf; S->tool_buf_size = size;
+        S->tool_buf_heap = g_live && g_live->count(buf) != 0;
+    }
+    return __real_setvbuf(f, buf, mode, size);
 }
 
 // blocks reachable from the tool's / library's own static storage are process-lifetime state ("still reachable"),
@@ -502,6 +514,14 @@ struct Exec {
         if (dead) {
             viol(dead == 2 ? "C20:assertion-failure:" + g_abort_expr : dead == 1 ? string("C20:abort") : dead == 4 ? string("C20:no-progress") : string("C20:exit-called"), g_abort_what);
         } else {
+            if (sim.tool_buf) {
+                // exit() flushes stdout after main() has returned: a buffer in main()'s frame, or one already freed, is gone by then
+                uintptr_t b = (uintptr_t)sim.tool_buf, here = (uintptr_t)__builtin_frame_address(0);
+                pthread_attr_t at; void *sa = nullptr; size_t ss = 0; uintptr_t slo = 0;
+                if (pthread_getattr_np(pthread_self(), &at) == 0) { pthread_attr_getstack(&at, &sa, &ss); pthread_attr_destroy(&at); slo = (uintptr_t)sa; }
+                if (slo && b >= slo && b < here) viol("C20:stdio-buffer-outlives-its-storage", "the tool gave stdout/stderr a buffer of " + std::to_string(sim.tool_buf_size) + " bytes that lives in a stack frame which has returned; exit() will flush from it");
+                else if (sim.tool_buf_heap && !live.count(sim.tool_buf)) viol("C20:stdio-buffer-outlives-its-storage", "the tool gave stdout/stderr a heap buffer and freed it before returning; exit() will flush from it");
+            }
             if (usage_path) {
                 // no file to work on / help asked for: nothing is read, nothing is judged; whatever the tool prints and returns
                 ST.usage_invocations++;
